@@ -223,8 +223,25 @@ fn repeated_program(rng: &mut Rng) -> String {
     }
 }
 
+/// A program above 2^20 gates (before pruning) that repeats some of its multiplications with the
+/// operands swapped at the very end: size-triggered behaviour of the gate cache must not let
+/// duplicates through.
+fn large_repeating_program() -> String {
+    let n = 42;
+    let params: Vec<String> = (0..n).map(|i| format!("a{i}: u64, b{i}: u64")).collect();
+    let mut body = String::from("    let mut s = 0u64;\n");
+    for i in 0..n {
+        body += &format!("    s = s ^ (a{i} * b{i});\n");
+    }
+    for i in 0..6 {
+        body += &format!("    s = s ^ ((b{i} * a{i}) >> 1u8);\n");
+    }
+    format!("pub fn main({}) -> u64 {{\n{body}    s\n}}\n", params.join(", "))
+}
+
 pub fn run(ctx: &Ctx) -> i32 {
     let mut programs: Vec<(String, String)> = corpus::load();
+    programs.push(("crafted-large-repeating-program".into(), large_repeating_program()));
     programs.extend(super::c04_op_programs().into_iter().enumerate().map(|(i, p)| (format!("op-program-{i}"), p)));
     let results = par(WORKERS, |w| {
         let mut rng = Rng::derive(ctx.seed, 0x1500 + w as u64);
